@@ -137,6 +137,13 @@ def gen_texts(ctx):
     quick = ctx.tier == 'quick'
     texts = ['#', 'X\n#define X 1', '#define', '# define', '#define A', '#define A 1\nA A\n', 'int x = "a\\"b"; /* c */ y\\\n z', '/* open', '', '"" "abc" \'c\'',
              '#define X y\nX X\n#define Z\n', 'a b c d e f g h i j', '# \t', 'x #', '#\n', '# define X', 'X # define X']
+    # sizes that cross the growth steps of the helper's tables (token list, identifier index): many distinct identifiers,
+    # many tokens, long tokens
+    for k in (8, 9, 10, 16, 17, 18, 31, 33, 64, 65, 129, 300):
+        texts.append(' '.join(f'name{j}' for j in range(k)) + ';\n')
+    texts.append('#define M0 1\n' + ' '.join(f'M{j % 5}' for j in range(70)) + '\n')
+    texts.append('"' + 's' * 300 + '" ' + 'x' * 400 + ' /* ' + 'c' * 300 + ' */ 12345678901234567890\n')
+    texts.append('(' * 40 + ')' * 40 + ';' * 40)
     L = 3 if quick else 4
     for tup in itertools.product(ALPHA, repeat=L):
         s = ''.join(tup)
@@ -164,9 +171,11 @@ def run(ctx):
     diffs = []
     texts = gen_texts(ctx)
     jobs = []
-    modes = MODES + (SHIPPED_EXTRA if ctx.tier != 'quick' else ['rm-toks-16'])
+    modes = MODES + (SHIPPED_EXTRA if ctx.tier != 'quick' else ['rm-toks-16', 'rm-tok-pattern-8'])
     for ti, text in enumerate(texts):
         ms = modes if ti < 40 or ctx.tier != 'quick' else ctx.rng.sample(modes, 4)
+        if ctx.tier == 'quick' and len(text) > 60:
+            ms = ['rename-toks', 'define', 'rm-toks-16', 'print', 'shorten-string']      # the table-growth inputs: modes that build tables
         for mode in ms:
             jobs.append((ti, text, mode))
 
